@@ -47,9 +47,20 @@ impl Property for C09 {
         let max_depth = *rng.pick(&[1usize, 3, 6, 12, 30, 80, 158]);
         let deep_cluster = rng.chance(1, 3);
         let horizon = *rng.pick(&[60_000u64, 10 * 60_000, 25 * 60_000, 45 * 60_000]);
-        for i in 0..n {
+        // id squatters: 9..12 parties at different addresses all claiming the one id that differs from
+        // the local id in its last bit; they drive the table to its full 160 buckets
+        let squat = if rng.chance(1, 8) { rng.range(9, 12) as usize } else { 0 };
+        if squat > 0 {
+            sc.params.insert("squatters".into(), squat as i64);
+        }
+        for i in 0..n.max(squat) {
             let depth = if deep_cluster && i < 12 { max_depth.saturating_sub(rng.below(2) as usize) } else { rng.below(max_depth as u64 + 1) as usize };
-            let mut s = StubCfg::honest(stub_addr(v6, i), id_with_lcp(&own, depth, &mut rng));
+            let id = if i < squat { krpc::flip_bit(&own, 159) } else { id_with_lcp(&own, depth, &mut rng) };
+            let mut s = StubCfg::honest(stub_addr(v6, i), id);
+            if i < squat {
+                sc.world.stubs.push(s);
+                continue;
+            }
             match rng.below(8) {
                 0 => s.answer = Answer::Never,
                 1 | 2 => s.answer = Answer::SilentFrom(rng.range(5_000, horizon)),
@@ -57,6 +68,7 @@ impl Property for C09 {
             }
             sc.world.stubs.push(s);
         }
+        let n = n.max(squat);
         let k = rng.range(1, 8.min(n as u64)) as usize;
         for i in 0..k {
             real.nodes.push(sc.world.stubs[(i * 7) % n].addr);
@@ -307,6 +319,9 @@ impl Property for C09 {
         if max_buckets >= 100 {
             v.hit("hundred_or_more_buckets");
         }
+        if max_buckets >= 160 {
+            v.hit("fully_split_table_160_buckets");
+        }
         if saw_bad {
             v.hit("table_with_bad_entries");
         }
@@ -318,12 +333,12 @@ impl Property for C09 {
         v
     }
     fn rule(&self) -> &'static str {
-        "one real serving node whose table is grown by traffic and time: bootstrap against 3..300 stubs placed by shared-prefix depth (up to 158 bits, forcing 1..159 buckets), some silent from the start or from a drawn time (entries turn questionable and bad), up to 45 virtual minutes; in one run of three additionally 161 find_node probes (local id and every single-bit flip) at one instant whose union must equal the dump's live set (hook-free cross-check); at 2..8 instants, 3..14 targets each (local id, local id with one bit flipped, random, ids of members): full enumeration through closest_nodes (hook H2) with a table dump, then a find_node/get_peers probe with a drawn want list, then enumeration + dump again; a reply is judged when the two dumps agree. non-trivial = at least one reply judged; distinct = distinct order digests"
+        "one real serving node whose table is grown by traffic and time: bootstrap against 3..300 stubs placed by shared-prefix depth (up to 158 bits, forcing 1..159 buckets; in 1 run of 8 also 9..12 squatters on the id that differs from the local id in its last bit, forcing all 160), some silent from the start or from a drawn time (entries turn questionable and bad), up to 45 virtual minutes; in one run of three additionally 161 find_node probes (local id and every single-bit flip) at one instant whose union must equal the dump's live set (hook-free cross-check); at 2..8 instants, 3..14 targets each (local id, local id with one bit flipped, random, ids of members): full enumeration through closest_nodes (hook H2) with a table dump, then a find_node/get_peers probe with a drawn want list, then enumeration + dump again; a reply is judged when the two dumps agree. non-trivial = at least one reply judged; distinct = distinct order digests"
     }
     fn assumptions(&self) -> Vec<&'static str> {
         vec!["table dumps come from hook H2/H3 at the same virtual instant as the probe (replies whose surrounding dumps differ are skipped and counted)"]
     }
     fn required_reach(&self) -> Vec<&'static str> {
-        vec!["more_than_8_live_nodes", "target_is_local_id", "twenty_or_more_buckets", "hundred_or_more_buckets", "table_with_bad_entries", "table_with_questionable_entries", "other_family_wanted_only", "dump_cross_checked_by_161_probes"]
+        vec!["more_than_8_live_nodes", "target_is_local_id", "twenty_or_more_buckets", "hundred_or_more_buckets", "fully_split_table_160_buckets", "table_with_bad_entries", "table_with_questionable_entries", "other_family_wanted_only", "dump_cross_checked_by_161_probes"]
     }
 }
